@@ -638,3 +638,90 @@ Proof.
   - congruence.
   - apply handle_process_ref_good; auto.
 Qed.
+
+(* ------------------------------------------------------------------ *)
+(* non-vacuity, and the two leaks excluded by instr_pre                *)
+(* ------------------------------------------------------------------ *)
+Definition exh : heap := mkHeap [Owned [1%Z]] [1] [] [] [false] [].
+Definition exP : hprogram := Build_hprogram [] [] [] 0 [] [].
+Definition exx : hext := Build_hext None false [] 0%Z.
+Definition exproc (st : list value) : proc := mkProc st [] [] false [] None None [].
+
+Lemma exh_WF : WFh exh.
+Proof.
+  unfold WFh, exh, freed_at, rc_at. cbn [cells rcs free pending freed length].
+  split; [reflexivity|]. split; [reflexivity|]. split; [constructor|].
+  split; [|split].
+  - intro i. split; [intros []|]. intros [Hi Hf]. destruct i as [|[|i]]; cbn in Hf; discriminate.
+  - intros i Hf. destruct i as [|[|i]]; cbn in Hf; discriminate.
+  - intros i [].
+Qed.
+
+(* a state holding exactly one counted reference to slot 0, somewhere on the stack *)
+Lemma exh_Inv st : (forall i, cnt i (refs_list st) = if Nat.eq_dec 0 i then 1 else 0) -> Inv [] exh (exproc st).
+Proof.
+  intro E. split; [apply exh_WF|]. intro i. rewrite cnt_proc_refs.
+  cbn [exproc p_stack p_locals p_mailbox p_result p_sel p_await]. rewrite E.
+  unfold rc_at, exh, cb_refs. cbn [rcs cbins flat_map result_refs sel_refs await_refs refs_list].
+  rewrite !cnt_nil. destruct i as [|[|i]]; reflexivity.
+Qed.
+
+Lemma cnt0_single i : cnt i [0] = if Nat.eq_dec 0 i then 1 else 0.
+Proof. rewrite cnt_cons, cnt_nil. destruct (Nat.eq_dec 0 i); reflexivity. Qed.
+
+(* exec_instr_good is not vacuous: a Spawn whose closure captures a binary, from a state that
+   meets Inv and instr_pre, returns a value (no panic, no Err) *)
+Example exec_instr_good_nonvacuous :
+  let p := exproc [VFun 0 [VBin 0]; VInt 5] in
+  Inv [] exh p /\ instr_pre p ISpawn /\ ISpawn <> ISelect /\
+  exists h' p', exec_instr false exP 7 ISpawn exx exh p = MVal (Some (ASpawn 7 0 [VBin 0] (VInt 5))) h' p'
+                /\ rc_at h' 0 = 0 /\ p_stack p' = [].
+Proof.
+  split; [apply exh_Inv; intro i; apply cnt0_single|].
+  split; [cbn; lia|]. split; [discriminate|].
+  eexists. eexists. split; [vm_compute; reflexivity|]. split; reflexivity.
+Qed.
+
+(* Send to a process reference: non-vacuity of the Send arm *)
+Example handle_send_good_nonvacuous :
+  let p := exproc [VProc 3 0; VBin 0] in
+  Inv [] exh p /\ instr_pre p ISend /\
+  exists h' p', handle_send 7 exh p = MVal (Some (ADeliver 3 (VBin 0))) h' p' /\ p_stack p' = [VProc 3 0].
+Proof.
+  split; [apply exh_Inv; intro i; apply cnt0_single|].
+  split; [cbn; split; [lia|exact I]|].
+  eexists. eexists. split; [vm_compute; reflexivity|reflexivity].
+Qed.
+
+(* The model as found: Spawn on a stack holding ONLY a closure that captures a binary. The first
+   raw pop succeeds, the second fails with StackUnderflow, the closure is dropped without release:
+   slot 0 keeps refcount 1 with no root left, so Inv does not hold in the persisting Err state. *)
+Example handle_spawn_underflow_leaks :
+  let p := exproc [VFun 0 [VBin 0]] in
+  Inv [] exh p /\
+  exists h' p', handle_spawn 7 exh p = MErr FStackUnderflow h' p' /\
+                rc_at h' 0 = 1 /\ proc_refs p' = [] /\ ~ Inv [] h' p'.
+Proof.
+  split; [apply exh_Inv; intro i; apply cnt0_single|].
+  eexists. eexists. split; [vm_compute; reflexivity|].
+  split; [reflexivity|]. split; [reflexivity|].
+  intros [_ H]. specialize (H 0). vm_compute in H. discriminate.
+Qed.
+
+(* Likewise Send to a target that is not a process reference and holds a binary: the target is
+   popped raw and dropped by the TypeMismatch return. *)
+Example handle_send_badtarget_leaks :
+  let p := exproc [VBin 0; VInt 1] in
+  Inv [] exh p /\ 2 <= length (p_stack p) /\
+  exists h' p', handle_send 7 exh p = MErr FTypeMismatch h' p' /\
+                rc_at h' 0 = 1 /\ proc_refs p' = [] /\ ~ Inv [] h' p'.
+Proof.
+  split; [apply exh_Inv; intro i; apply cnt0_single|].
+  split; [cbn; lia|].
+  eexists. eexists. split; [vm_compute; reflexivity|].
+  split; [reflexivity|]. split; [reflexivity|].
+  intros [_ H]. specialize (H 0). vm_compute in H. discriminate.
+Qed.
+
+Print Assumptions exec_instr_good.
+Print Assumptions handle_spawn_underflow_leaks.
